@@ -9,8 +9,9 @@
 //!   (the parser itself is judged by the main enumerator).
 //! * `$INCLUDE` (RFC 1035 §5.1) in the valid direction: a four-record file split at every pair of
 //!   positions into a parent and an included file (optionally nested once more), with a
-//!   `$ORIGIN` inside the included file or an origin argument on the `$INCLUDE` entry, relative
-//!   names on both sides, missing final newlines, comments, CRLF, relative/absolute paths.
+//!   `$ORIGIN` inside the included file, relative names on both sides, missing final newlines,
+//!   comments, CRLF, relative/absolute paths. (The `$INCLUDE <file> <domain-name>` argument, which
+//!   hickory refuses with a documented error, is only counted as an observation.)
 //!   RFC 1035: the included file is inserted at that point; "$INCLUDE entry never changes the
 //!   relative origin of the parent file, regardless of changes to the relative origin made
 //!   within the included file".
@@ -343,7 +344,10 @@ pub fn replay_loader(ctx: &Ctx, w: &World, case: &Value, l: &mut Local) {
 
 pub const IDIMS: [(&str, &[&str]); 10] = [
     ("split", &["0-1", "0-2", "0-3", "0-4", "1-2", "1-3", "1-4", "2-3", "2-4", "3-4"]),
-    ("included-origin", &["inherited", "own-$ORIGIN-child", "own-$ORIGIN-unrelated", "$INCLUDE-argument"]),
+    // the optional `$INCLUDE <file> <domain-name>` argument is explicitly unsupported by hickory
+    // ("Domain name for $INCLUDE is not supported") and not named by the statement: it is not
+    // part of the judged space, only counted (value 3 of this choice, see `include_origin_argument_observation`)
+    ("included-origin", &["inherited", "own-$ORIGIN-child", "own-$ORIGIN-unrelated"]),
     ("included-names", &["abs", "rel"]),
     ("parent-names", &["abs", "rel"]),
     ("included-final-newline", &["present", "absent"]),
@@ -606,7 +610,7 @@ pub fn include_family(ctx: &Ctx, w: &World, base: &Path) -> (u64, u64) {
     // through the file store: split x included-origin x nested x path, everything else plain
     let mut lcases: Vec<Vec<u64>> = vec![];
     for s in 0..10u64 {
-        for o in 0..4u64 {
+        for o in 0..3u64 {
             for nested in 0..2u64 {
                 for path in 0..2u64 {
                     for names in 0..2u64 {
@@ -633,6 +637,40 @@ pub fn include_family(ctx: &Ctx, w: &World, base: &Path) -> (u64, u64) {
         },
     );
     (n, lcases.len() as u64)
+}
+
+/// Not judged: the `$INCLUDE <file-name> <domain-name>` form (RFC 1035 5.1) on every split x
+/// relative/absolute names; counted as `obs:include-origin-argument-unsupported` when the parser
+/// refuses it with its documented message, `...-accepted:exact` / `...:other` otherwise.
+pub fn include_origin_argument_observation(ctx: &Ctx, w: &World, base: &Path) -> u64 {
+    let recs = include_records(w);
+    let env = Env::new(base, 999);
+    let dir = env.root.join("zones");
+    let mut n = 0;
+    ctx.with_local(|l| {
+        for split in 0..10u64 {
+            for names in 0..2u64 {
+                let d = vec![split, 3, names, names, 0, 0, 0, 0, 0, 0];
+                let f = include_files(w, &recs, &[], &d, &dir);
+                let main = dir.join("main.zone");
+                std::fs::write(&main, &f.main).expect("scratch write");
+                for (name, body) in &f.files {
+                    std::fs::write(dir.join(name), body).expect("scratch write");
+                }
+                l.eval();
+                n += 1;
+                let want: Vec<&Record> = recs.iter().map(|e| &e.expect).collect();
+                match parse_flat(&f.main, Some(&main), &w.horigin) {
+                    Err(p) => l.violation(&panic_key(&p), &p.msg, || json!({"kind": "text", "family": "include-origin-argument", "text": f.main})),
+                    Ok(Err(e)) if e.contains("Domain name for $INCLUDE is not supported") => l.outcome("obs:include-origin-argument-unsupported"),
+                    Ok(Err(_)) => l.outcome("obs:include-origin-argument:other-error"),
+                    Ok(Ok(got)) if same_set(&got, &want) => l.outcome("obs:include-origin-argument-accepted:exact"),
+                    Ok(Ok(_)) => l.outcome("obs:include-origin-argument-accepted:different-records"),
+                }
+            }
+        }
+    });
+    n
 }
 
 pub fn replay_include(ctx: &Ctx, w: &World, case: &Value, l: &mut Local) {
